@@ -1554,7 +1554,7 @@ def main(chk: C.Check, build: C.Build) -> None:
         oracle_sites(run, short[1:: 5], others)
         oracle_sites(run, short[:: 12], all_sites, with_async=True)
     oracle_sites(run, three, few)
-    oracle_sites(run, three[:: (5 if not thorough else 9)], others, with_async=True)
+    oracle_sites(run, three[:: (5 if not thorough else 18)], others, with_async=True)
     oracle_sites(run, longer[:: 2], all_sites, with_async=True)
     oracle_sites(run, longer[1:: 2], all_sites, with_async=thorough)
     lap("oracle_valid")
